@@ -858,6 +858,40 @@ func genReveal(ctx *Ctx, emit func(any, string)) {
 			}
 		}
 	}
+	// size is no limit: a chain of 120 single-slot wrappers; 300 wrapped children side by side
+	{
+		k := 0
+		id := func() string { k++; return fmt.Sprintf("n%d", k-1) }
+		rootID := id()
+		var n *Node = &Node{T: "stack", ID: id(), Kind: "OR", Els: []*Node{{T: "str", S: "e1"}, {T: "str", S: "e2"}}}
+		for d := 0; d < 120; d++ {
+			w := &Node{T: "stack", ID: id(), Kind: []string{"AND", "OR", "LIST"}[d%3], Mutex: d%7 == 0, Els: []*Node{n}}
+			if d%11 == 10 {
+				w.Opt = 1 // a parenthetical level in between: survives
+			}
+			if d%13 == 12 {
+				w.Kind = "NOT"
+			}
+			n = w
+		}
+		emit(RevealInput{Tree: &Node{T: "stack", ID: rootID, Kind: "AND", Els: []*Node{{T: "str", S: "first"}, n}}}, "exhaustive")
+		k = 0
+		root := &Node{T: "stack", ID: id(), Kind: "AND", Mutex: true}
+		for i := 0; i < 300; i++ {
+			inner := &Node{T: "stack", ID: id(), Kind: "OR", Els: []*Node{{T: "str", S: "a"}, {T: "str", S: "b"}}}
+			switch i % 4 {
+			case 0:
+				root.Els = append(root.Els, &Node{T: "stack", ID: id(), Kind: "AND", Els: []*Node{inner}})
+			case 1:
+				root.Els = append(root.Els, &Node{T: "cond", ID: id(), Kw: "k", Op: &OpDesc{Builtin: 1}, Ex: &Node{T: "stack", ID: id(), Kind: "AND", Els: []*Node{inner}}})
+			case 2:
+				root.Els = append(root.Els, &Node{T: "str", S: "leaf"})
+			default:
+				root.Els = append(root.Els, inner)
+			}
+		}
+		emit(RevealInput{Tree: root}, "exhaustive")
+	}
 	// malformed / degenerate receivers
 	emit(RevealInput{Tree: &Node{T: "zstack"}}, "exhaustive")
 	emit(RevealInput{Tree: &Node{T: "stack", ID: "n0", Kind: "AND"}}, "exhaustive")
